@@ -889,4 +889,169 @@ theorem sim_opCat {w : World} (hw : w.Good) (a : Args) : Sim (HS.opCat w.norm a)
     | error e => simp only [map_error_E]; exact sim_same w _
     | ok fo => simp only [map_ok_E]; exact sim_files w _ _ (FileObj.norm_norm _)
 
+/-! ### union / intersection operations -/
+
+/-- a function that cannot tell a bit-packed object from its ordinary-boolean form -/
+abbrev BlindTo {β : Type} (F : MapObj → β) : Prop :=
+  (fun co so st c v => F (bln co so st c v)) = (fun co so st c v => F (pkd co so st c v))
+
+theorem BlindTo.norm {β : Type} {F : MapObj → β} (hF : (fun co so st c v => F (bln co so st c v)) = (fun co so st c v => F (pkd co so st c v))) {m : MapObj} (hk : m.KindOk) :
+    F m.norm = F m := by
+  rcases m.packed_cases hk with hp | ⟨co, so, st, c, v, rfl⟩
+  · rw [MapObj.norm_of_ne hp]
+  · rw [pkd_norm]
+    exact congrFun (congrFun (congrFun (congrFun (congrFun hF co) so) st) c) v
+
+theorem map_norm_blind {β : Type} {F : MapObj → β} {l : List MapObj} (hall : ∀ m ∈ l, m.KindOk)
+    (hF : (fun co so st c v => F (bln co so st c v)) = (fun co so st c v => F (pkd co so st c v))) : (l.map MapObj.norm).map F = l.map F := by
+  rw [List.map_map]
+  exact List.map_congr_left (fun m hm => BlindTo.norm hF (hall m hm))
+
+theorem any_norm_blind {p : MapObj → Bool} {l : List MapObj} (hall : ∀ m ∈ l, m.KindOk)
+    (hF : (fun co so st c v => p (bln co so st c v)) = (fun co so st c v => p (pkd co so st c v))) : (l.map MapObj.norm).any p = l.any p := by
+  induction l with
+  | nil => rfl
+  | cons a as ih =>
+    simp only [List.map_cons, List.any_cons, BlindTo.norm hF (hall a (List.mem_cons_self ..)),
+      ih (fun m hm => hall m (List.mem_cons_of_mem _ hm))]
+
+theorem all_norm_blind {p : MapObj → Bool} {l : List MapObj} (hall : ∀ m ∈ l, m.KindOk)
+    (hF : (fun co so st c v => p (bln co so st c v)) = (fun co so st c v => p (pkd co so st c v))) : (l.map MapObj.norm).all p = l.all p := by
+  induction l with
+  | nil => rfl
+  | cons a as ih =>
+    simp only [List.map_cons, List.all_cons, BlindTo.norm hF (hall a (List.mem_cons_self ..)),
+      ih (fun m hm => hall m (List.mem_cons_of_mem _ hm))]
+
+theorem forIn_norm_blind {β : Type} {B : MapObj → β → Except Err (ForInStep β)} {l : List MapObj} (b : β)
+    (hall : ∀ m ∈ l, m.KindOk) (hF : (fun co so st c v => B (bln co so st c v)) = (fun co so st c v => B (pkd co so st c v))) :
+    forIn (l.map MapObj.norm) b B = forIn l b B := by
+  induction l generalizing b with
+  | nil => rfl
+  | cons a as ih =>
+    simp only [List.map_cons, List.forIn_cons, BlindTo.norm hF (hall a (List.mem_cons_self ..))]
+    congr 1
+    funext r
+    cases r with
+    | done b' => rfl
+    | yield b' => exact ih b' (fun m hm => hall m (List.mem_cons_of_mem _ hm))
+
+theorem any_cons_norm_blind {p : MapObj → Bool} {l : List MapObj} (f0 : MapObj) (hall : ∀ m ∈ l, m.KindOk)
+    (hF : (fun co so st c v => p (bln co so st c v)) = (fun co so st c v => p (pkd co so st c v))) :
+    (f0 :: l.map MapObj.norm).any p = (f0 :: l).any p := by
+  rw [List.any_cons, List.any_cons, any_norm_blind hall hF]
+
+theorem map_cons_norm_blind {β : Type} {F : MapObj → β} {l : List MapObj} (f0 : MapObj) (hall : ∀ m ∈ l, m.KindOk)
+    (hF : (fun co so st c v => F (bln co so st c v)) = (fun co so st c v => F (pkd co so st c v))) :
+    (f0 :: l.map MapObj.norm).map F = (f0 :: l).map F := by
+  rw [List.map_cons, List.map_cons, map_norm_blind hall hF]
+
+theorem forIn_cons_norm_blind {β : Type} {B : MapObj → β → Except Err (ForInStep β)} {l : List MapObj}
+    (f0 : MapObj) (b : β) (hall : ∀ m ∈ l, m.KindOk)
+    (hF : (fun co so st c v => B (bln co so st c v)) = (fun co so st c v => B (pkd co so st c v))) :
+    forIn (f0 :: l.map MapObj.norm) b B = forIn (f0 :: l) b B := by
+  rw [List.forIn_cons, List.forIn_cons]
+  congr 1
+  funext r
+  cases r with
+  | done b' => rfl
+  | yield b' => exact forIn_norm_blind b' hall hF
+
+theorem apiMultiOp_rest_norm (row : OpRow) (f0 : MapObj) (rest : List MapObj) (hall : ∀ m ∈ rest, m.KindOk) :
+    apiMultiOp row (f0 :: rest.map MapObj.norm) = apiMultiOp row (f0 :: rest) := by
+  unfold apiMultiOp
+  simp only [List.length_cons, List.length_map, pure_bind]
+  rw [forIn_cons_norm_blind f0 _ hall]
+  · rw [map_cons_norm_blind f0 hall]
+    · repeat' (rw [any_cons_norm_blind f0 hall])
+      · simp only [List.any_cons, List.all_cons, List.any_map, List.all_map, Function.comp_def,
+          MapObj.norm_c, MapObj.norm_st]
+        rfl
+      all_goals rfl
+    · rfl
+  · rfl
+theorem ite_eq_map_ite {α β : Type} {f : α → β} {c : Prop} {i1 i2 : Decidable c} {a1 b1 : Except Err β}
+    {a2 b2 : Except Err α} (h1 : a1 = f <$> a2) (h2 : b1 = f <$> b2) :
+    @ite _ c i1 a1 b1 = f <$> @ite _ c i2 a2 b2 := by
+  cases i1 with
+  | isFalse n1 =>
+    cases i2 with
+    | isFalse n2 => exact h2
+    | isTrue t2 => exact absurd t2 n1
+  | isTrue t1 =>
+    cases i2 with
+    | isFalse n2 => exact absurd t1 n2
+    | isTrue t2 => exact h1
+
+set_option maxHeartbeats 1000000 in
+theorem apiMultiOp_head_lit (row : OpRow) (co so : Nat) (st : State Val) (c : Option Nat) (v : Option (String × Nat))
+    (rest : List MapObj) :
+    apiMultiOp row (bln co so st c v :: rest) = MapObj.norm <$> apiMultiOp row (pkd co so st c v :: rest) := by
+  unfold apiMultiOp
+  cases hd : parseDTCode row.dtypeOut <;>
+  simp +instances only [map_bind, map_pure, map_ite_E, pure_bind, throw_bind_E, map_throw_E, List.length_cons,
+    pkd_covord, pkd_spord, pkd_kind, pkd_sent, pkd_st, pkd_cache, pkd_view, bln_covord, bln_spord,
+    bln_kind, bln_sent, bln_st, bln_cache, bln_view, bln_c, bln_vc, List.forIn_cons,
+    List.any_cons, List.all_cons, List.map_cons,
+    Kind.isIntegerMap.eq_2, Kind.isIntegerMap.eq_3, Kind.dt, Bool.false_and, Bool.false_eq_true, ↓reduceIte,
+    Bool.not_true, Bool.and_false] <;>
+  (split; rfl) <;> (split; rfl) <;> (congr 1; funext _) <;>
+  (generalize hM : multiOp _ _ _ _ _ _ _ = M
+   generalize hM2 : multiOp _ _ _ _ _ _ _ = M2
+   have hMM : M = M2 := hM.symm.trans hM2
+   subst hMM
+   cases M) <;>
+  (repeat' (first | split | simp only [map_ite_E, map_pure, map_throw_E])) <;>
+  first | rfl | exact ite_eq_map_ite rfl rfl
+theorem multiKindOut_ne_packed (k : Kind) (d : String) (hk : k ≠ .packed) : multiKindOut k d ≠ .packed := by
+  unfold multiKindOut
+  split
+  · intro h; cases h
+  · intro h; cases h
+  · exact hk
+
+theorem apiMultiOp_norm (row : OpRow) {maps : List MapObj} (hall : ∀ m ∈ maps, m.KindOk) :
+    apiMultiOp row (maps.map MapObj.norm) = MapObj.norm <$> apiMultiOp row maps := by
+  cases maps with
+  | nil => rfl
+  | cons f0 rest =>
+    rw [List.map_cons, apiMultiOp_rest_norm row f0.norm rest (fun m hm => hall m (List.mem_cons_of_mem _ hm))]
+    rcases f0.packed_cases (hall f0 (List.mem_cons_self ..)) with hp | ⟨co, so, st, c, v, rfl⟩
+    · rw [MapObj.norm_of_ne hp]
+      cases h : apiMultiOp row (f0 :: rest) with
+      | error e => rfl
+      | ok r =>
+        obtain ⟨first, rest', hfs, _, _, _, _, hcase⟩ := WFApi.apiMultiOp_ok h
+        cases hfs
+        have : r.kind ≠ .packed := by
+          rcases hcase with ⟨hk, _, _⟩ | ⟨hk, _, _⟩
+          · rw [hk]; exact hp
+          · rw [hk]; exact multiKindOut_ne_packed _ _ hp
+        show Except.ok r = Except.ok r.norm
+        rw [MapObj.norm_of_ne this]
+    · rw [pkd_norm]
+      exact apiMultiOp_head_lit row co so st c v rest
+
+theorem Kind.code_norm (k : Kind) : k.norm.code = k.code := by cases k <;> rfl
+
+theorem mapM_get_norm (w : World) (names : List String) :
+    names.mapM w.norm.get? = (names.mapM w.get?).map (List.map MapObj.norm) := by
+  have : w.norm.get? = fun n => (w.get? n).map MapObj.norm := funext (World.get?_norm w)
+  rw [this]
+  exact mapM_option_map _ _ _
+
+theorem sim_opMop {w : World} (hw : w.Good) (a : Args) : Sim (HS.opMop w.norm a) (HS.opMop w a) := by
+  unfold HS.opMop
+  simp only [mapM_get_norm]
+  cases hm : (splitList (a.getD "maps" "_")).mapM w.get? with
+  | none => simp only [Option.map_none]; exact sim_same w _
+  | some maps =>
+    have hall : ∀ m ∈ maps, m.KindOk := fun m hmm => (mem_mapM_get hw hm m hmm).2.1
+    have hcode : ((maps.map MapObj.norm).head?.map (·.kind.code)) = (maps.head?.map (·.kind.code)) := by
+      cases maps with
+      | nil => rfl
+      | cons m ms => simp [MapObj.norm, Kind.code_norm]
+    simp only [Option.map_some, hcode, apiMultiOp_norm _ hall, List.length_map]
+    sim_walk
+
 end HS
